@@ -226,6 +226,11 @@ def run(tier, seed):
                     scheds.append(login + pre + [["send", 1, "EPSV"], ["send", 1, (verb + " " + arg).strip()]] + mid
                                   + [["dconnect", 1], ["deof", 1], ["send", 1, "PWD"], ["send", 1, "QUIT"]])
     corecheck.validate(chk, gen.std_cfg(ns=1), gen.STD_TREE, scheds, label="listing-wire")
+    # ... and the same over a tree with empty files (size 0 is a size) on all backends
+    tree0 = {"d": gen.STD_TREE["d"], "f": gen.STD_TREE["f"] + [{"p": ["A", "z0"], "c": []}, {"p": ["A", "d", "z1"], "c": []}]}
+    zero = scheds[::3] + [login + [["send", 1, "MLST " + a]] for a in ("z0", "d/z1", "/z0", "f", "d")]
+    for b in ("memory", "path", "async"):
+        corecheck.validate(chk, gen.std_cfg(ns=1, backend=b), tree0, zero, label="listing-wire:empty-files:" + b)
     # a backend that fails on the n-th stat / is_file / is_dir / exists / list step of a listing or a stat: the answer is the failure
     # (451) or the whole truth - never a success reply over a listing with an entry missing or its facts incomplete
     faulty = []
